@@ -386,6 +386,9 @@ func emitHist(key string, format string, a ...interface{}) {
 	if seen && first != body {
 		line += " hist=diff"
 	}
+	if heldChanged() {
+		line += " held=changed"
+	}
 	emit("%s", line)
 }
 
@@ -436,6 +439,14 @@ func prepareCalls(r *rng, k int) []prepared {
 			}
 			if r.chance(1, 6) {
 				c.indent = " "
+			}
+			// sometimes the document IS an earlier result the caller still holds (not a copy of it)
+			if r.chance(1, 5) {
+				heldMu.Lock()
+				if len(held) > 0 {
+					c.doc = held[r.n(len(held))].live
+				}
+				heldMu.Unlock()
 			}
 			// one decoded Patch shared by every execution of this call
 			shared, derr := jsonpatch.DecodePatch(c.patch)
@@ -524,6 +535,7 @@ func prepareCalls(r *rng, k int) []prepared {
 // every line is judged against the (history-free) model, so any dependence on history
 // shows as a disagreement
 func streamHist(r *rng, n int, pfx string) {
+	holdResults = true
 	done := 0
 	round := 0
 	for done < n {
@@ -545,6 +557,7 @@ func streamHist(r *rng, n int, pfx string) {
 // the same calls from several goroutines at once (shared Patch values, shared slices);
 // run under the race detector by the check
 func streamConc(r *rng, n int, pfx string) {
+	holdResults = true
 	done := 0
 	round := 0
 	for done < n {
@@ -729,4 +742,27 @@ func sortKeys(v *jv) *jv {
 		}
 	}
 	return v
+}
+
+// every 3-byte sequence E2 xx yy inside a string, through the escaping paths of the codec
+func streamE2(shard, shards int) {
+	idx := 0
+	for x := 0; x < 256; x++ {
+		for y := 0; y < 256; y++ {
+			idx++
+			if shards > 1 && idx%shards != shard {
+				continue
+			}
+			body := []byte{0xE2, byte(x), byte(y)}
+			if x == '"' || y == '"' || x == '\\' || y == '\\' || x < 0x20 || y < 0x20 {
+				continue
+			}
+			t := append(append([]byte{'"'}, body...), '"')
+			id := fmt.Sprintf("e2-%02x%02x", x, y)
+			replayCodec(id+"c", "compactesc", nil, t)
+			replayCodec(id+"h", "htmlescape", nil, t)
+			replayCodec(id+"q", "quote", []byte("1"), body)
+			replayCodec(id+"r", "roundtrip", []byte("0"), t)
+		}
+	}
 }
